@@ -6,7 +6,7 @@
      client_generators/input_types.py InputTypesGenerator._parse_input_definition (fields of one input)
    Both run, per name in document order,
         name = process_name(...)                       [arguments: "_" + name when not name.isidentifier()]
-        while name in used_names: name += "_"
+        while name in used_names [input fields: or it is another field's GraphQL name]: name += "_"
         used_names.add(name)
    Executable definitions only; proofs are in Proofs/ScopesP.v. *)
 From Coq Require Import List String Ascii Bool Arith.
@@ -14,24 +14,27 @@ From AC Require Import Base.Strs Base.Sexp Model.Names.
 Import ListNotations.
 Local Open Scope list_scope.
 
-(* `while name in used: name += "_"`.  Python's loop has no bound; it ends because every round names a
-   longer string and [used] is finite.  The model runs it on fuel [S (length used)], which Proofs/ScopesP.v
-   shows is always enough (fresh_not_used), so the out-of-fuel branch is never the answer. *)
-Fixpoint fresh_go (fuel : nat) (n : chars) (used : list chars) : chars :=
+(* `while <bad name>: name += "_"`.  Python's loop has no bound; it ends because every round names a
+   longer string and the names that can be bad are finitely many.  The model runs it on fuel
+   [S (number of names that can be bad)], which Proofs/ScopesP.v shows is always enough (fresh_go_ok), so the
+   out-of-fuel branch is never the answer. *)
+Fixpoint fresh_go (fuel : nat) (bad : chars -> bool) (n : chars) : chars :=
   match fuel with
   | 0 => n
-  | S f => if mem_chars n used then fresh_go f (app n ["_"%char]) used else n
+  | S f => if bad n then fresh_go f bad (app n ["_"%char]) else n
   end.
-Definition fresh (n : chars) (used : list chars) : chars := fresh_go (S (List.length used)) n used.
 
-(* one scope: names in order, [used] grows by every name handed out *)
+(* ---- arguments.py: `while name in used_names` ---- *)
+Definition fresh (n : chars) (used : list chars) : chars :=
+  fresh_go (S (List.length used)) (fun x => mem_chars x used) n.
+
 Fixpoint assign (base : chars -> chars) (names : list chars) (used : list chars) : list chars :=
   match names with
   | [] => []
   | n :: ns => let p := fresh (base n) used in p :: assign base ns (p :: used)
   end.
 
-(* arguments.py: process_name without trimming / reserved handling, then the identifier repair *)
+(* process_name without trimming / reserved handling, then the identifier repair *)
 Definition var_flags (snake : bool) : pflags := {| f_snake := snake; f_trim := false; f_reserved := false |}.
 Definition var_base (snake : bool) (n : chars) : chars :=
   let p := process_name (var_flags snake) n in
@@ -41,11 +44,24 @@ Definition var_base (snake : bool) (n : chars) : chars :=
 Definition var_names (snake : bool) (reserved names : list chars) : list chars :=
   assign (var_base snake) names reserved.
 
-(* input_types.py: process_name with trimming and reserved handling; the scope starts empty *)
+(* ---- input_types.py:
+        while name in used_names or (name != org_name and name in definition.fields): name += "_"
+   [all] are the GraphQL names of all fields of the input type ---- *)
+Definition input_bad (org : chars) (all used : list chars) (x : chars) : bool :=
+  mem_chars x used || (negb (chars_eqb x org) && mem_chars x all).
+Definition input_fresh (org n : chars) (all used : list chars) : chars :=
+  fresh_go (S (List.length used + List.length all)) (input_bad org all used) n.
+
+Fixpoint assign_input (base : chars -> chars) (all names used : list chars) : list chars :=
+  match names with
+  | [] => []
+  | n :: ns => let p := input_fresh n (base n) all used in p :: assign_input base all ns (p :: used)
+  end.
+
 Definition input_flags (snake : bool) : pflags := {| f_snake := snake; f_trim := true; f_reserved := true |}.
 Definition input_base (snake : bool) (n : chars) : chars := process_name (input_flags snake) n.
 Definition input_field_names (snake : bool) (names : list chars) : list chars :=
-  assign (input_base snake) names [].
+  assign_input (input_base snake) names names [].
 
 (* the declaration of an input field: Python name and, when it differs from the GraphQL name, the alias *)
 Definition input_decls (snake : bool) (names : list chars) : list (chars * option chars) :=
